@@ -129,6 +129,8 @@ var syntaxLookalikes = []string{
 	`😀`, `\/`, `","`, `":"`, `}]`, ` `, `NaN`, `Infinity`,
 	// a value-like token right after a structural character, as a token-level rewrite of the text would match it
 	`range:-Inf..0`, `a,+Inf`, `k[NaN.0`, `:null`, `,true]`, `[1,2]`, `:NaN.0,`, `{"a":+Inf}`, `<b>&amp;</b>`, `%d%s`, `${HOME}`, `/* c */`,
+	// a literal backslash followed by what looks like the rest of an escape (the serialiser writes \\u0041, which must come back as six characters)
+	`\u0041`, `\u00e9x`, `\ud83d\ude00`, `\n\t`, `\\u0041`, `\x41`, `\"`, `a\`,
 }
 
 // GenString draws a valid-UTF-8 string from the class tables.
@@ -306,7 +308,7 @@ type TreeCfg struct {
 	MaxStr    int
 	KeyGen    func(t *rapid.T) string // nil: GenString
 	NoFloat   bool
-	LongLists bool // occasionally draw lists of 60-130 scalars (fast paths keyed on length)
+	LongLists bool                       // occasionally draw lists of 60-130 scalars (fast paths keyed on length)
 	LeafExtra func(t *rapid.T) (V, bool) // optional extra leaf source
 }
 
